@@ -571,6 +571,8 @@ def spec_env(E, c, selfv, args, kwargs, st):
             raise Unsupported("argument %s of kind %s does not fit contract %s (%s)" % (n, v.kind, c.qual, kinds[n]))
     if selfv is not None:
         env["self"] = selfv
+    if "result" in env:
+        env["arg_result"] = env["result"]  # a parameter called `result` is visible in clauses as arg_result
     return env
 
 
